@@ -157,6 +157,26 @@ def check(chk):
         r = reads_in(pm, cls, m, {}) & state
         chk.check(not r, "UNSEEN.pure", m, m.node, construct=f"{cls.name}.inverse_transform_scores_unseen reads no fit-time sample coordinates",
                   why=f"the unseen-data path reads {sorted(r)}, which fit filled from the training samples: new samples get training labels")
+    # UNSEEN.labelfree: the unseen path must not align by sample labels (new data may repeat labels)
+    from .c14 import self_closure
+    LABEL_ALIGN = {"reindex", "reindex_like", "sel", "loc", "combine_first", "interp", "interp_like", "align", "merge", "drop_sel"}
+    for cls in transformer_classes(pm):
+        m = cls.resolve("inverse_transform_scores_unseen")
+        if m is None or m.is_abstract:
+            continue
+        bad = []
+        for fn in self_closure(pm, cls, m):
+            for c in calls_in(fn):
+                f = c.func
+                name = f.attr if isinstance(f, ast.Attribute) else (f.id if isinstance(f, ast.Name) else "")
+                if name in LABEL_ALIGN:
+                    bad.append((fn, c, name))
+        for fn, c, name in bad:
+            chk.violation("UNSEEN.labelfree", fn, c, context=cls.name,
+                          why=f"the unseen-data label path of {cls.name} aligns by coordinate labels ({name}): new data may carry repeated or "
+                              "arbitrary sample labels, so a sample's scores would depend on other samples with the same label (or raise)")
+        if not bad:
+            chk.ok("UNSEEN.labelfree", m, None, construct=f"{cls.name}.inverse_transform_scores_unseen: no label-based alignment")
     # UNSEEN.path
     n_entries = 0
     for cls in pm.concrete_models():
